@@ -381,8 +381,16 @@ ObjPyEq(i, j) == /\ Cat[i].kind = Cat[j].kind
 \* where an entry came from is not structure - except that a parsed list literal is another
 \* class than a Python list
 \* (nor is the way the objects were put together: mode)
+\* (nor is the order in which the keyword arguments of a call were written: they are a mapping,
+\* and two calls that differ in it only are equal - the keyword sequence is read as a set)
+RECURSIVE KwUnordered(_)
+KwUnordered(e) ==
+    IF e.t \in {"User", "Poly", "Rat", "NaNNode", "FunctionSymbol", "Wild"} THEN e
+    ELSE LET ks == Kids(e)
+             e2 == WithKids(e, [i \in 1..Len(ks) |-> KwUnordered(ks[i])])
+         IN IF e.t = "CallKw" THEN [e2 EXCEPT !.kw = {e2.kw[i] : i \in 1..Len(e2.kw)}] ELSE e2
 StructNorm(c) == [c EXCEPT !.np = FALSE, !.src = (c.src /\ "List" \in KindsIn(c.e)), !.mode = "",
-                            !.vobj = ""]
+                            !.vobj = "", !.e = KwUnordered(c.e)]
 ObjSameStruct(i, j) == StructNorm(Cat[i]) = StructNorm(Cat[j])
 
 \* canonical representative (least index) of the == class / of the structure
@@ -394,7 +402,7 @@ Canon(i)  == CanonTab[i]
 StructOf(i) == StructTab[i]
 \* pytools' KeyBuilder (third party) keys numpy scalars by their own type: for it a numpy
 \* constant is a different structure; pymbolic's own walker normalises numpy scalars
-KBNorm(c) == [c EXCEPT !.mode = "", !.vobj = ""]
+KBNorm(c) == [c EXCEPT !.mode = "", !.vobj = "", !.e = KwUnordered(c.e)]
 StructKBTab == [i \in CatIds |->
                 CHOOSE j \in CatIds : KBNorm(Cat[j]) = KBNorm(Cat[i])
                                        /\ \A k \in 1..(j - 1) : KBNorm(Cat[k]) # KBNorm(Cat[i])]
@@ -427,7 +435,7 @@ CatalogueSane ==
                           /\ Cardinality(SeqToSet(Cat[i].rest)) = Len(Cat[i].rest)
     \* the intended relations between neighbours
     /\ ObjPyEq(3, 4) /\ ObjPyEq(3, 5) /\ ~ObjSameStruct(3, 4) /\ ~ObjPyEq(3, 6)
-    /\ ObjPyEq(22, 23) /\ ~ObjSameStruct(22, 23) /\ ~ObjPyEq(22, 24)
+    /\ ObjPyEq(22, 23) /\ ObjSameStruct(22, 23) /\ ~ObjPyEq(22, 24)
     /\ ~ObjPyEq(16, 17) /\ ~ObjPyEq(26, 27) /\ ObjPyEq(41, 42) /\ ~ObjPyEq(41, 43)
     /\ ~ObjPyEq(63, 67) /\ ~ObjPyEq(50, 51) /\ ObjPyEq(59, 60) /\ ~ObjSameStruct(59, 60) /\ ~ObjPyEq(28, 29)
     /\ ObjSameStruct(79, 80) /\ ~ObjPyEq(78, 81) /\ ~ObjPyEq(78, 90) /\ ~ObjPyEq(78, 80)
